@@ -322,7 +322,10 @@ impl<C: ServerContext> HttpServerStarter<C> {
             };
 
             #[cfg(dropshot_verif)]
-            crate::verif::emit("accept_exit", serde_json::json!({}));
+            crate::verif::emit(
+                "accept_exit",
+                serde_json::json!({ "srv": local_addr.port() }),
+            );
             // optional: could use another select on a timeout
             graceful.shutdown().await
         });
@@ -336,10 +339,16 @@ impl<C: ServerContext> HttpServerStarter<C> {
                 .await
                 .map_err(|e| format!("server stopped: {e}"))?;
             #[cfg(dropshot_verif)]
-            crate::verif::emit("graceful_done", serde_json::json!({}));
+            crate::verif::emit(
+                "graceful_done",
+                serde_json::json!({ "srv": local_addr.port() }),
+            );
             () = handler_waitgroup.wait().await;
             #[cfg(dropshot_verif)]
-            crate::verif::emit("waitgroup_done", serde_json::json!({}));
+            crate::verif::emit(
+                "waitgroup_done",
+                serde_json::json!({ "srv": local_addr.port() }),
+            );
             Ok(())
         };
 
@@ -683,7 +692,10 @@ impl<C: ServerContext> HttpServer<C> {
     /// Signals the currently running server to stop and waits for it to exit.
     pub async fn close(mut self) -> Result<(), String> {
         #[cfg(dropshot_verif)]
-        crate::verif::emit("close_requested", serde_json::json!({ "via": "close" }));
+        crate::verif::emit(
+            "close_requested",
+            serde_json::json!({ "via": "close", "srv": self.local_addr.port() }),
+        );
         self.closer
             .close_channel
             .take()
@@ -710,7 +722,10 @@ impl Drop for CloseHandle {
     fn drop(&mut self) {
         if let Some(c) = self.close_channel.take() {
             #[cfg(dropshot_verif)]
-            crate::verif::emit("close_requested", serde_json::json!({ "via": "drop" }));
+            crate::verif::emit(
+                "close_requested",
+                serde_json::json!({ "via": "drop" }),
+            );
             // The other side of this channel is owned by a separate tokio task
             // that's running the hyper server.  We do not expect that to be
             // cancelled.  But it can happen if the executor itself is shutting
@@ -766,6 +781,7 @@ async fn http_request_handle_wrap<C: ServerContext>(
                 .and_then(|v| v.to_str().ok())
                 .unwrap_or(""),
             "port": remote_addr.port(),
+            "srv": server.local_addr.port(),
         }),
     );
 
@@ -1132,7 +1148,7 @@ impl<C: ServerContext> ServerConnectionHandler<C> {
         #[cfg(dropshot_verif)]
         crate::verif::emit(
             "accept",
-            serde_json::json!({ "port": remote_addr.port() }),
+            serde_json::json!({ "port": remote_addr.port(), "srv": self.server.local_addr.port() }),
         );
         ServerRequestHandler::new(self.server.clone(), remote_addr)
     }
